@@ -371,12 +371,6 @@ Lemma resolve_other : forall r r' deg,
   resolve r' deg = resolve r deg.
 Proof. intros r r' deg H1 H2 H3 H4. unfold resolve. rewrite H1, H2, H3, H4. reflexivity. Qed.
 
-Lemma truthy_pow_true : forall o, truthy_pow o = true -> exists t, o = Some t /\ ~ t == 0.
-Proof.
-  intros [t |] H; cbn in H; [| discriminate]. exists t. split; [reflexivity |].
-  intros E. apply Qeq_bool_iff in E. rewrite E in H. discriminate.
-Qed.
-
 (* one step of set_targets on a degree without entry: what is added resolves to the node's policy *)
 Lemma set_targets_preserves : forall next r r',
   exactly_one r -> set_targets r next = Ok r' ->
@@ -458,32 +452,17 @@ Proof.
            destruct (zfind d (dpow r)), (zfind d (dpsd r)); reflexivity.
 Qed.
 
-(* the design step succeeds for every single-policy ROADM whose power target is not exactly 0 dBm *)
-Lemma set_targets_ok_partial : forall next r,
-  exactly_one r -> (forall t, npow r = Some t -> ~ t == 0) -> exists r', set_targets r next = Ok r'.
+(* the design step succeeds for every single-policy ROADM *)
+Lemma set_targets_ok : forall next r, exactly_one r -> exists r', set_targets r next = Ok r'.
 Proof.
-  induction next as [| d next IH]; intros r Hone Hnz.
+  induction next as [| d next IH]; intros r Hone.
   - exists r. reflexivity.
   - cbn [set_targets]. destruct (deg_has r d); [apply IH; assumption |].
     destruct (node_policy_exactly_one r Hone) as [(t & P1 & P2 & P3 & _) | [(t & P1 & P2 & P3 & _) | (t & P1 & P2 & P3 & _)]].
-    + rewrite P1. assert (Ht : truthy_pow (Some t) = true).
-      { cbn. destruct (Qeq_bool t 0) eqn:E; [| reflexivity]. apply Qeq_bool_iff in E. exfalso. exact (Hnz t P1 E). }
-      rewrite Ht. apply IH.
-      * unfold exactly_one in *. cbn [with_deg npow npsd npsw]. exact Hone.
-      * cbn [with_deg npow]. exact Hnz.
-    + rewrite P1, P2. cbn [truthy_pow truthy_lin]. apply IH.
-      * unfold exactly_one in *. cbn [with_deg npow npsd npsw]. exact Hone.
-      * cbn [with_deg npow]. exact Hnz.
-    + rewrite P1, P2, P3. cbn [truthy_pow truthy_lin]. apply IH.
-      * unfold exactly_one in *. cbn [with_deg npow npsd npsw]. exact Hone.
-      * cbn [with_deg npow]. exact Hnz.
+    + rewrite P1. cbn [truthy_pow]. apply IH. unfold exactly_one in *. cbn [with_deg npow npsd npsw]. exact Hone.
+    + rewrite P1, P2. cbn [truthy_pow truthy_lin]. apply IH. unfold exactly_one in *. cbn [with_deg npow npsd npsw]. exact Hone.
+    + rewrite P1, P2, P3. cbn [truthy_pow truthy_lin]. apply IH. unfold exactly_one in *. cbn [with_deg npow npsd npsw]. exact Hone.
 Qed.
-
-(* F12: the full statement (without the 0 dBm guard) is false of the faithful model *)
-Definition f12_roadm : roadm := mkRoadm (Some 0) None None [] [] [] (Some (15, 17)) [] [].
-Lemma set_targets_zero_dbm_refuted :
-  exists r next, exactly_one r /\ set_targets r next = Err "ConfigurationError:needs an equalization target".
-Proof. exists f12_roadm, [1%Z]. split; vm_compute; reflexivity. Qed.
 
 (* a ROADM without node-level policy is rejected by the design step as soon as one egress OMS has no own target *)
 Lemma design_rejects_none : forall next r d,
